@@ -3,7 +3,7 @@
 const path = require('path')
 const { encodeMap } = require('./smap')
 
-const SITE_KINDS = ['body', 'operand', 'multiline', 'arrow', 'method', 'eval', 'callback', 'msg-newline', 'throw', 'helper', 'msg-at']
+const SITE_KINDS = ['body', 'operand', 'multiline', 'double', 'arrow', 'method', 'eval', 'callback', 'msg-newline', 'throw', 'helper', 'msg-at']
 
 // returns {text, sites:[{k, kind, fn, line, cbLine?}], kind, omap?}
 function genVersion (rng, fi, vi, kind, o) {
@@ -16,6 +16,7 @@ function genVersion (rng, fi, vi, kind, o) {
   if (rng.chance(1, 3)) add("'use strict'")
   add('function keep (a, b) { return b }')
   const mkErrLine = add('function mkErr (m) { return new Error(m) }')
+  add('function keep2 (a, b) { return [a, b] }')
   const nSites = rng.range(2, 6)
   let kinds = []
   for (let i = 0; i < nSites; i++) {
@@ -75,6 +76,18 @@ function genVersion (rng, fi, vi, kind, o) {
         site.line = add(plain ? "    new Error('tpl')" : '    new Error(`tpl ${x}`)')
         add('  )')
         add('  return r')
+        add('}')
+        break
+      }
+      case 'double': {
+        // two errors created in one multi-line expression (the printer may put it on one generated line):
+        // their stacks are read one after the other, left to right
+        add(`function ${N} (x) {`)
+        add('  const pair = keep2(')
+        site.line = add(plain ? "    new Error('first')," : "    new Error(x + 'first'),")
+        site.line2 = add(plain ? "    new Error('second')" : "    new Error(x + 'second')")
+        add('  )')
+        add('  return pair')
         add('}')
         break
       }
